@@ -16,7 +16,7 @@ const MODES: [&str; 6] = ["none", "at-sp", "at-sp+8", "last-word-of-stack", "bel
 #[derive(Clone, Debug)]
 pub struct Case {
     modes: [usize; 3],
-    principal: usize, // 0 dedicated executable region, 1 thread 0's code page, 2 address in no mapping, 3 dedicated non-executable region, 4 executable region at a fixed low address (below the executable), 5 the executable's own text mapping
+    principal: usize, // 0 dedicated executable region, 1 thread 0's code page, 2 address in no mapping, 3 dedicated non-executable region, 4 executable region at a fixed low address (below the executable), 5 the executable's own text mapping, 6 / 7 a file mapping folded over an inaccessible anonymous page (piece, hole, final piece): principal address in the front piece and the reference into the piece behind the hole / the other way round
     ctx: usize,       // 0 off, 1 on: rip outside, 2 on: rip inside principal, 3 on: rip == end of principal
     /// stack sanitising on as well (it must not influence which stacks are kept)
     sanitize: bool,
@@ -43,6 +43,9 @@ pub struct Target {
     /// a region at a fixed LOW address (below the executable: the writer moves the entry-point mapping to the
     /// front of its list, so its list is not address-sorted in this target); 0 if the address was taken
     region_low: u64,
+    /// start of a 3-page read-only file mapping whose middle page was replaced by an inaccessible anonymous
+    /// page (0 if it could not be set up)
+    region_fold: u64,
     /// an address range inside the puppet executable's text mapping
     exe_text: (u64, u64),
     sp: [u64; 3],
@@ -62,6 +65,13 @@ fn make_target(flavour: u8) -> Target {
     let region = p.pattern(2, "hole", "rx");
     let region_rw = p.pattern(2, "hole", "rw");
     let region_low = p.cmd("pattern_at 0x20000000 2 rx").ok().and_then(|r| r.first().map(|a| u64::from_str_radix(a.trim_start_matches("0x"), 16).unwrap_or(0))).unwrap_or(0);
+    let region_fold = {
+        let path = "/verif/target/fixtures/plain.bin";
+        match p.mapfile(path.as_bytes(), 0, 3 * 4096, "r") {
+            Ok(a) if p.cmd(&format!("hole_at {:#x} 4096", a + 4096)).is_ok() => a,
+            _ => 0,
+        }
+    };
     // the executable as the writer sees it: the merged extent of the contiguous lines that carry its name
     let exe_text = {
         let lines = mdv_core::mapsref::parse_maps(&p.maps_text()).unwrap_or_default();
@@ -97,7 +107,7 @@ fn make_target(flavour: u8) -> Target {
     // scrub the captured part of the stacks of anything that might look like a pointer into the regions
     p.quiesce();
     let first = if flavour >= 1 { 22 } else { 0 };
-    Target { p, region, region_rw, region_low, exe_text, sp, hi, first, flavour }
+    Target { p, region, region_rw, region_low, region_fold, exe_text, sp, hi, first, flavour }
 }
 
 fn expected_reference(mem: &[u8], base: u64, sp: u64, low: u64, high: u64) -> bool {
@@ -121,10 +131,15 @@ pub fn run_case(t: &mut Target, c: &Case) -> Vec<(String, String)> {
         3 => (t.region_rw, t.region_rw + 2 * 4096),
         4 if t.region_low != 0 => (t.region_low, t.region_low + 2 * 4096),
         5 if t.exe_text.0 != 0 => t.exe_text,
-        4 | 5 => return fails, // this target could not provide the shape
+        6 | 7 if t.region_fold != 0 => (t.region_fold, t.region_fold + 3 * 4096),
+        4..=7 => return fails, // this target could not provide the shape
         _ => (0x10, 0x10),
     };
-    let ptr = if c.principal == 2 { t.region + 0x20 } else { low + 0x20 };
+    let ptr = match c.principal {
+        2 => t.region + 0x20,
+        6 => low + 2 * 4096 + 0x20, // into the piece behind the hole
+        _ => low + 0x20,
+    };
     // plant
     let mut restore: Vec<(u64, Vec<u8>)> = Vec::new();
     for i in 0..3 {
@@ -144,7 +159,7 @@ pub fn run_case(t: &mut Target, c: &Case) -> Vec<(String, String)> {
         }
     }
     let blamed = t.p.threads[t.first + 1].tid;
-    let mut o = DumpOpts { skip_unref: true, principal: Some(if c.principal == 2 { 0x10 } else { low as usize + 0x40 }), blamed: Some(blamed), sanitize: c.sanitize, size_limit: if t.flavour >= 1 { Some(0) } else { None }, ..Default::default() };
+    let mut o = DumpOpts { skip_unref: true, principal: Some(match c.principal { 2 => 0x10, 7 => low as usize + 2 * 4096 + 0x40, _ => low as usize + 0x40 }), blamed: Some(blamed), sanitize: c.sanitize, size_limit: if t.flavour >= 1 { Some(0) } else { None }, ..Default::default() };
     let ctx_rip = match c.ctx {
         1 => Some(t.p.threads[t.first + 1].page + 0x10),
         2 => Some(if c.principal == 2 { t.region } else { low + 4 }),
@@ -235,7 +250,7 @@ fn cases(thorough: bool) -> Vec<Case> {
         mdv_core::lat::lat(&sizes, 2, |t| tuples.push(t.to_vec()));
     }
     for t in tuples {
-        for principal in 0..6 {
+        for principal in 0..8 {
             for ctx in 0..4 {
                 if !thorough && ctx >= 2 && t.iter().filter(|x| **x != 0).count() > 1 {
                     continue;
